@@ -89,13 +89,17 @@ theorem keyed_put {key : Batch → Nat} {d : Disk} (hk : Keyed key d) (b : Batch
 theorem keyed_del {key : Batch → Nat} {d : Disk} (hk : Keyed key d) (k : Nat) : Keyed key (Disk.del k d) :=
   fun e he => hk e (Disk.mem_del.1 he).1
 
-/-! ## every operation is one of three primitive transitions, optionally followed by a reload -/
+/-! ## every operation is one primitive transition, followed by a reload for the operations that restart -/
 
-/-- `Trans s s₁ a d`: from `s` to `s₁`, accepting the batches `a`, handing out the batches `d` -/
+/-- `Trans s s₁ a d`: from `s` to `s₁`, accepting the batches `a`, removing the batches `d` from the queue.
+`tick`: only the fault counters / the bound change (an armed fault consumed by a failing `Put`, `fail`, a new
+bound); `popKeep`: `Next` whose `Delete` failed (possible only while a `Delete` fault is armed). -/
 inductive Trans (cfg : Cfg) (s : St) : St → List Batch → List Batch → Prop
   | none : Trans cfg s s [] []
+  | tick (s' : St) : s'.mem = s.mem → s'.disk = s.disk → Trans cfg s s' [] []
   | accept (b : Batch) : full cfg s = false → Trans cfg s (accept key s b) [b] []
   | pop (b : Batch) (r : List Batch) : s.mem = b :: r → Trans cfg s (pop key s b r) [] [b]
+  | popKeep (b : Batch) (r : List Batch) : s.mem = b :: r → 0 < s.failDel → Trans cfg s (popKeep s r) [] [b]
 
 theorem addBatch_cases (cfg : Cfg) (s : St) (b : Batch) :
     ((addBatch key cfg s b) = (s, .errFull) ∧ full cfg s = true) ∨
@@ -135,39 +139,155 @@ theorem getNext_cases (cfg : Cfg) (s : St) (id : Bytes) :
     · left; exact ⟨_, by simpa using h, by simp⟩
     · right; exact ⟨b, r, by simpa using h, hm⟩
 
+/-! ### with datastore errors -/
+
+/-- the state after a failing `Put`: one armed fault consumed, nothing else -/
+def putFailed (s : St) : St := { s with failPut := s.failPut - 1 }
+
+theorem addBatchF_cases (cfg : Cfg) (s : St) (b : Batch) :
+    (addBatchF key cfg s b = (s, .errFull) ∧ full cfg s = true) ∨
+    (addBatchF key cfg s b = (putFailed s, .errStore) ∧ full cfg s = false ∧ 0 < s.failPut) ∨
+    (addBatchF key cfg s b = (accept key s b, .ok) ∧ full cfg s = false ∧ s.failPut = 0) := by
+  unfold addBatchF putFailed
+  cases h : full cfg s
+  · by_cases hp : 0 < s.failPut
+    · right; left; simp [hp]
+    · right; right; simp [hp]; omega
+  · left; simp
+
+theorem nextBatchF_cases (s : St) :
+    (nextBatchF key s = (s, .empty) ∧ s.mem = []) ∨
+    (∃ b r, nextBatchF key s = (pop key s b r, .batch b) ∧ s.mem = b :: r ∧ s.failDel = 0) ∨
+    (∃ b r, nextBatchF key s = (popKeep s r, .batch b) ∧ s.mem = b :: r ∧ 0 < s.failDel) := by
+  unfold nextBatchF
+  cases h : s.mem with
+  | nil => simp
+  | cons b r =>
+    by_cases hd : 0 < s.failDel
+    · right; right; exact ⟨b, r, by simp [hd], rfl, hd⟩
+    · right; left; exact ⟨b, r, by simp [hd], rfl, by omega⟩
+
+theorem submitF_cases (cfg : Cfg) (s : St) (id : Bytes) (b : Batch) :
+    (∃ o, submitF key cfg s id b = (s, o) ∧ (o = .errId ∨ o = .skipEmpty ∨ o = .errFull)) ∨
+    (submitF key cfg s id b = (putFailed s, .errStore) ∧ full cfg s = false ∧ 0 < s.failPut) ∨
+    (submitF key cfg s id b = (accept key s b, .ok) ∧ full cfg s = false ∧ s.failPut = 0) := by
+  unfold submitF
+  by_cases h1 : id ≠ cfg.id
+  · simp [h1]
+  · by_cases h2 : b.isEmpty
+    · simp only [h1, h2]; simp
+    · simp only [h1, h2]
+      rcases addBatchF_cases key cfg s b with ⟨h, _⟩ | ⟨h, hf⟩ | ⟨h, hf⟩
+      · left; exact ⟨_, by simpa using h, by simp⟩
+      · right; left; exact ⟨by simpa using h, hf⟩
+      · right; right; exact ⟨by simpa using h, hf⟩
+
+theorem getNextF_cases (cfg : Cfg) (s : St) (id : Bytes) :
+    (∃ o, getNextF key cfg s id = (s, o) ∧ (o = .errId ∨ o = .empty)) ∨
+    (∃ b r, getNextF key cfg s id = (pop key s b r, .batch b) ∧ s.mem = b :: r ∧ s.failDel = 0) ∨
+    (∃ b r, getNextF key cfg s id = (popKeep s r, .batch b) ∧ s.mem = b :: r ∧ 0 < s.failDel) := by
+  unfold getNextF
+  by_cases h1 : id ≠ cfg.id
+  · simp [h1]
+  · simp only [h1]
+    rcases nextBatchF_cases key s with ⟨h, _⟩ | ⟨b, r, h, hm⟩ | ⟨b, r, h, hm⟩
+    · left; exact ⟨_, by simpa using h, by simp⟩
+    · right; left; exact ⟨b, r, by simpa using h, hm⟩
+    · right; right; exact ⟨b, r, by simpa using h, hm⟩
+
+/-- with a healthy datastore the fault-aware functions are the plain ones -/
+theorem addBatchF_eq (cfg : Cfg) (s : St) (b : Batch) (h : s.failPut = 0) : addBatchF key cfg s b = addBatch key cfg s b := by
+  unfold addBatchF addBatch; simp [h]
+theorem nextBatchF_eq (s : St) (h : s.failDel = 0) : nextBatchF key s = nextBatch key s := by
+  unfold nextBatchF nextBatch; cases s.mem <;> simp [h]
+theorem submitF_eq (cfg : Cfg) (s : St) (id : Bytes) (b : Batch) (h : s.failPut = 0) :
+    submitF key cfg s id b = submit key cfg s id b := by
+  unfold submitF submit; rw [addBatchF_eq key cfg s b h]
+theorem getNextF_eq (cfg : Cfg) (s : St) (id : Bytes) (h : s.failDel = 0) : getNextF key cfg s id = getNext key cfg s id := by
+  unfold getNextF getNext; rw [nextBatchF_eq key s h]
+
+/-- what a submission accepts, by its answer -/
+def okList (b : Batch) : Out → List Batch
+  | .ok => [b]
+  | _ => []
+
+/-- what a request removes from the queue, by its answer -/
+def batchList : Out → List Batch
+  | .batch b => [b]
+  | _ => []
+
+theorem addBatchF_trans (cfg : Cfg) (s : St) (b : Batch) :
+    Trans key cfg s (addBatchF key cfg s b).1 (okList b (addBatchF key cfg s b).2) [] := by
+  rcases addBatchF_cases key cfg s b with ⟨h, _⟩ | ⟨h, _, _⟩ | ⟨h, hf, _⟩
+  · rw [h]; exact .none
+  · rw [h]; exact .tick _ rfl rfl
+  · rw [h]; exact .accept b hf
+
+theorem submitF_trans (cfg : Cfg) (s : St) (id : Bytes) (b : Batch) :
+    Trans key cfg s (submitF key cfg s id b).1 (okList b (submitF key cfg s id b).2) [] := by
+  rcases submitF_cases key cfg s id b with ⟨o, h, ho⟩ | ⟨h, _, _⟩ | ⟨h, hf, _⟩
+  · rw [h]; rcases ho with rfl | rfl | rfl <;> exact .none
+  · rw [h]; exact .tick _ rfl rfl
+  · rw [h]; exact .accept b hf
+
+theorem nextBatchF_trans (cfg : Cfg) (s : St) :
+    Trans key cfg s (nextBatchF key s).1 [] (batchList (nextBatchF key s).2) := by
+  rcases nextBatchF_cases key s with ⟨h, _⟩ | ⟨b, r, h, hm, _⟩ | ⟨b, r, h, hm, hd⟩
+  · rw [h]; exact .none
+  · rw [h]; exact .pop b r hm
+  · rw [h]; exact .popKeep b r hm hd
+
+theorem getNextF_trans (cfg : Cfg) (s : St) (id : Bytes) :
+    Trans key cfg s (getNextF key cfg s id).1 [] (batchList (getNextF key cfg s id).2) := by
+  rcases getNextF_cases key cfg s id with ⟨o, h, ho⟩ | ⟨b, r, h, hm, _⟩ | ⟨b, r, h, hm, hd⟩
+  · rw [h]; rcases ho with rfl | rfl <;> exact .none
+  · rw [h]; exact .pop b r hm
+  · rw [h]; exact .popKeep b r hm hd
+
+theorem acceptedBy_submit (id : Bytes) (b : Batch) (o : Out) : acceptedBy (.submit id b) o = okList b o := by cases o <;> rfl
+theorem acceptedBy_crashSubmit (id : Bytes) (b : Batch) (o : Out) : acceptedBy (.crashSubmit true id b) o = okList b o := by cases o <;> rfl
+theorem acceptedBy_add (b : Batch) (o : Out) : acceptedBy (.add b) o = okList b o := by cases o <;> rfl
+theorem removedBy_next (id : Bytes) (o : Out) : removedBy (.next id) o = batchList o := by cases o <;> rfl
+theorem removedBy_crashNext (id : Bytes) (o : Out) : removedBy (.crashNext true id) o = batchList o := by cases o <;> rfl
+theorem removedBy_qnext (o : Out) : removedBy .qnext o = batchList o := by cases o <;> rfl
+
 /-- the shape of one step: a primitive transition to `stepCore` (the state before the process stops,
 if it does), then a reload exactly for the operations that restart -/
 theorem step_core (cfg : Cfg) (s : St) (op : Op) :
     Trans key cfg s (stepCore key cfg s op) (acceptedBy op (step key cfg s op).2) (removedBy op (step key cfg s op).2) ∧
-    (step key cfg s op).1 = (if op.plain = true then stepCore key cfg s op else reload (stepCore key cfg s op)) := by
+    (step key cfg s op).1 = (if op.reloads = true then reload (stepCore key cfg s op) else stepCore key cfg s op) := by
   cases op with
   | submit id b =>
-    rcases submit_cases key cfg s id b with ⟨o, h, ho⟩ | ⟨h, hf⟩
-    · refine ⟨?_, by simp [step, stepCore, Op.plain]⟩
-      rcases ho with rfl | rfl | rfl <;> simp [step, stepCore, h, acceptedBy, removedBy] <;> exact .none
-    · refine ⟨?_, by simp [step, stepCore, Op.plain]⟩
-      simp only [step, stepCore, h, acceptedBy, removedBy]
-      exact .accept b hf
+    refine ⟨?_, by simp [step, stepCore, Op.reloads]⟩
+    have hr : removedBy (.submit id b) (step key cfg s (.submit id b)).2 = [] := by cases (step key cfg s (.submit id b)).2 <;> rfl
+    rw [acceptedBy_submit, hr]; exact submitF_trans key cfg s id b
   | next id =>
-    rcases getNext_cases key cfg s id with ⟨o, h, ho⟩ | ⟨b, r, h, hm⟩
-    · refine ⟨?_, by simp [step, stepCore, Op.plain]⟩
-      rcases ho with rfl | rfl <;> simp [step, stepCore, h, acceptedBy, removedBy] <;> exact .none
-    · refine ⟨?_, by simp [step, stepCore, Op.plain]⟩
-      simp only [step, stepCore, h, acceptedBy, removedBy]
-      exact .pop b r hm
-  | restart => exact ⟨by simp [acceptedBy, removedBy, stepCore]; exact .none, by simp [step, stepCore, Op.plain]⟩
-  | load => exact ⟨by simp [acceptedBy, removedBy, stepCore]; exact .none, by simp [step, stepCore, Op.plain]⟩
+    refine ⟨?_, by simp [step, stepCore, Op.reloads]⟩
+    have ha : acceptedBy (.next id) (step key cfg s (.next id)).2 = [] := by cases (step key cfg s (.next id)).2 <;> rfl
+    rw [removedBy_next, ha]; exact getNextF_trans key cfg s id
+  | add b =>
+    refine ⟨?_, by simp [step, stepCore, Op.reloads]⟩
+    have hr : removedBy (.add b) (step key cfg s (.add b)).2 = [] := by cases (step key cfg s (.add b)).2 <;> rfl
+    rw [acceptedBy_add, hr]; exact addBatchF_trans key cfg s b
+  | qnext =>
+    refine ⟨?_, by simp [step, stepCore, Op.reloads]⟩
+    have ha : acceptedBy .qnext (step key cfg s .qnext).2 = [] := by cases (step key cfg s .qnext).2 <;> rfl
+    rw [removedBy_qnext, ha]; exact nextBatchF_trans key cfg s
+  | restart => exact ⟨by simp [acceptedBy, removedBy, stepCore]; exact .none, by simp [step, stepCore, Op.reloads]⟩
+  | load => exact ⟨by simp [acceptedBy, removedBy, stepCore]; exact .none, by simp [step, stepCore, Op.reloads]⟩
+  | restartMax n =>
+    exact ⟨by simp [acceptedBy, removedBy, stepCore]; exact .tick _ rfl rfl, by simp [step, stepCore, Op.reloads]⟩
+  | fail p d =>
+    exact ⟨by simp [acceptedBy, removedBy, stepCore]; exact .tick _ rfl rfl, by simp [step, stepCore, Op.reloads]⟩
   | crashSubmit aw id b =>
     cases aw with
     | true =>
-      rcases submit_cases key cfg s id b with ⟨o, h, ho⟩ | ⟨h, hf⟩
-      · refine ⟨?_, by simp [step, stepCore, Op.plain]⟩
-        rcases ho with rfl | rfl | rfl <;> simp [step, stepCore, h, acceptedBy, removedBy] <;> exact .none
-      · refine ⟨?_, by simp [step, stepCore, Op.plain]⟩
-        simp only [step, stepCore, h, acceptedBy, removedBy]
-        exact .accept b hf
+      refine ⟨?_, by simp [step, stepCore, Op.reloads]⟩
+      have hr : removedBy (.crashSubmit true id b) (step key cfg s (.crashSubmit true id b)).2 = [] := by
+        cases (step key cfg s (.crashSubmit true id b)).2 <;> rfl
+      rw [acceptedBy_crashSubmit, hr]; exact submitF_trans key cfg s id b
     | false =>
-      refine ⟨?_, by simp [step, stepCore, Op.plain]⟩
+      refine ⟨?_, by simp [step, stepCore, Op.reloads]⟩
       have : acceptedBy (.crashSubmit false id b) (step key cfg s (.crashSubmit false id b)).2 = [] := by
         cases (step key cfg s (.crashSubmit false id b)).2 <;> rfl
       have h2 : removedBy (.crashSubmit false id b) (step key cfg s (.crashSubmit false id b)).2 = [] := by
@@ -176,31 +296,23 @@ theorem step_core (cfg : Cfg) (s : St) (op : Op) :
   | crashNext aw id =>
     cases aw with
     | true =>
-      rcases getNext_cases key cfg s id with ⟨o, h, ho⟩ | ⟨b, r, h, hm⟩
-      · refine ⟨?_, by simp [step, stepCore, Op.plain]⟩
-        rcases ho with rfl | rfl <;> simp [step, stepCore, h, acceptedBy, removedBy] <;> exact .none
-      · refine ⟨?_, by simp [step, stepCore, Op.plain]⟩
-        simp only [step, stepCore, h, acceptedBy, removedBy]
-        exact .pop b r hm
+      refine ⟨?_, by simp [step, stepCore, Op.reloads]⟩
+      have ha : acceptedBy (.crashNext true id) (step key cfg s (.crashNext true id)).2 = [] := by
+        cases (step key cfg s (.crashNext true id)).2 <;> rfl
+      rw [removedBy_crashNext, ha]; exact getNextF_trans key cfg s id
     | false =>
-      refine ⟨?_, by simp [step, stepCore, Op.plain]⟩
+      refine ⟨?_, by simp [step, stepCore, Op.reloads]⟩
       have : acceptedBy (.crashNext false id) (step key cfg s (.crashNext false id)).2 = [] := by
         cases (step key cfg s (.crashNext false id)).2 <;> rfl
       have h2 : removedBy (.crashNext false id) (step key cfg s (.crashNext false id)).2 = [] := by
         cases (step key cfg s (.crashNext false id)).2 <;> rfl
       rw [this, h2]; exact .none
-  | add b =>
-    rcases addBatch_cases key cfg s b with ⟨h, _⟩ | ⟨h, hf⟩
-    · exact ⟨by simp [step, stepCore, h, acceptedBy, removedBy]; exact .none, by simp [step, stepCore, Op.plain]⟩
-    · refine ⟨?_, by simp [step, stepCore, Op.plain]⟩
-      simp only [step, stepCore, h, acceptedBy, removedBy]
-      exact .accept b hf
-  | qnext =>
-    rcases nextBatch_cases key s with ⟨h, _⟩ | ⟨b, r, h, hm⟩
-    · exact ⟨by simp [step, stepCore, h, acceptedBy, removedBy]; exact .none, by simp [step, stepCore, Op.plain]⟩
-    · refine ⟨?_, by simp [step, stepCore, Op.plain]⟩
-      simp only [step, stepCore, h, acceptedBy, removedBy]
-      exact .pop b r hm
+
+theorem plain_not_reloads {op : Op} (h : op.plain = true) : op.reloads = false := by
+  cases op <;> first | rfl | simp [Op.plain] at h
+
+theorem lifetime_not_reloads {op : Op} (h : op.lifetime = true) : op.reloads = false := by
+  cases op <;> first | rfl | simp [Op.lifetime] at h
 
 /-- the same, with the intermediate state abstracted -/
 theorem step_cases (cfg : Cfg) (s : St) (op : Op) :
@@ -208,10 +320,10 @@ theorem step_cases (cfg : Cfg) (s : St) (op : Op) :
       ((step key cfg s op).1 = s₁ ∨ (step key cfg s op).1 = reload s₁) ∧
       (op.plain = true → (step key cfg s op).1 = s₁) := by
   obtain ⟨t, hs⟩ := step_core key cfg s op
-  refine ⟨_, t, ?_, fun hp => by rw [hs, if_pos hp]⟩
-  by_cases hp : op.plain = true
-  · left; rw [hs, if_pos hp]
-  · right; rw [hs, if_neg hp]
+  refine ⟨_, t, ?_, fun hp => by rw [hs, if_neg (by simp [plain_not_reloads hp])]⟩
+  by_cases hp : op.reloads = true
+  · right; rw [hs, if_pos hp]
+  · left; rw [hs, if_neg hp]
 
 /-! ## the ghost lists: removed = handed out + lost in the window between `Delete` and return -/
 
@@ -259,18 +371,26 @@ theorem run_induction (cfg : Cfg) (P : Run → Prop)
   | cons op ops ih => exact ih _ (hstep r op h0)
 
 /-- the same for an invariant that needs a hypothesis `G` on the final accepted list which is
-inherited by every prefix of it -/
-theorem run_induction_guarded (cfg : Cfg) (P : Run → Prop) (G : List Batch → Prop)
+inherited by every prefix of it, and a side condition `R` on every operation -/
+theorem run_induction_guarded (cfg : Cfg) (P : Run → Prop) (G : List Batch → Prop) (R : Op → Prop)
     (hG : ∀ l t, G (l ++ t) → G l)
-    (hstep : ∀ r op, P r → G (Run.step key cfg r op).acc → P (Run.step key cfg r op))
-    (r : Run) (h0 : P r) (ops : List Op) (hg : G (runFrom key cfg r ops).acc) :
+    (hstep : ∀ r op, P r → R op → G (Run.step key cfg r op).acc → P (Run.step key cfg r op))
+    (r : Run) (h0 : P r) (ops : List Op) (hr : ∀ op ∈ ops, R op) (hg : G (runFrom key cfg r ops).acc) :
     P (runFrom key cfg r ops) := by
   induction ops generalizing r with
   | nil => exact h0
   | cons op ops ih =>
     rw [runFrom_cons] at hg ⊢
     obtain ⟨t, ht⟩ := acc_prefix key cfg (Run.step key cfg r op) ops
-    exact ih _ (hstep r op h0 (hG _ t (ht ▸ hg))) hg
+    exact ih _ (hstep r op h0 (hr op (by simp)) (hG _ t (ht ▸ hg))) (fun o ho => hr o (by simp [ho])) hg
+
+/-- an invariant that is preserved by every operation satisfying a side condition `R` -/
+theorem run_induction_ops (cfg : Cfg) (P : Run → Prop) (R : Op → Prop)
+    (hstep : ∀ r op, P r → R op → P (Run.step key cfg r op)) (r : Run) (h0 : P r) (ops : List Op)
+    (hr : ∀ op ∈ ops, R op) : P (runFrom key cfg r ops) := by
+  induction ops generalizing r with
+  | nil => exact h0
+  | cons op ops ih => exact ih _ (hstep r op h0 (hr op (by simp))) (fun o ho => hr o (by simp [ho]))
 
 /-- an invariant that needs, at every position of the history, a hypothesis `Q` about the operation
 executed there and the state it reaches before the process stops (`stepCore`) -/
@@ -324,68 +444,171 @@ theorem lost_nil_of_no_crash (cfg : Cfg) (ops : List Op) (h : ∀ op ∈ ops, op
   show r.lost ++ lostBy op _ = []
   rw [hr, lostBy_nil_of_not_crash hq]; rfl
 
-/-! ## invariant J (every key function, every history): the datastore is a key-sorted, correctly
-keyed sub-multiset of memory, and memory respects the bound -/
+/-! ## no failing `Delete` is armed
+
+Datastore errors are outside the property's quantifier.  A failing `Put` is harmless (nothing changes);
+a failing `Delete` leaves the record of a batch that has been handed out, which a restart brings back.
+The invariants below are about histories in which no `Delete` fault is ever armed (`Op.armsDelete`). -/
+
+theorem failDel_stepCore {cfg : Cfg} {s : St} (h : s.failDel = 0) {op : Op} (ho : op.armsDelete = false) :
+    (stepCore key cfg s op).failDel = 0 := by
+  cases op with
+  | submit id b =>
+    rcases submitF_cases key cfg s id b with ⟨o, h1, _⟩ | ⟨h1, _⟩ | ⟨h1, _⟩ <;> simp [stepCore, h1, putFailed, accept, h]
+  | crashSubmit aw id b =>
+    cases aw
+    · exact h
+    · rcases submitF_cases key cfg s id b with ⟨o, h1, _⟩ | ⟨h1, _⟩ | ⟨h1, _⟩ <;> simp [stepCore, h1, putFailed, accept, h]
+  | add b =>
+    rcases addBatchF_cases key cfg s b with ⟨h1, _⟩ | ⟨h1, _⟩ | ⟨h1, _⟩ <;> simp [stepCore, h1, putFailed, accept, h]
+  | next id =>
+    rcases getNextF_cases key cfg s id with ⟨o, h1, _⟩ | ⟨b, r, h1, _⟩ | ⟨b, r, h1, _, hd⟩
+    · simp [stepCore, h1, h]
+    · simp [stepCore, h1, pop, h]
+    · omega
+  | crashNext aw id =>
+    cases aw
+    · exact h
+    · rcases getNextF_cases key cfg s id with ⟨o, h1, _⟩ | ⟨b, r, h1, _⟩ | ⟨b, r, h1, _, hd⟩
+      · simp [stepCore, h1, h]
+      · simp [stepCore, h1, pop, h]
+      · omega
+  | qnext =>
+    rcases nextBatchF_cases key s with ⟨h1, _⟩ | ⟨b, r, h1, _⟩ | ⟨b, r, h1, _, hd⟩
+    · simp [stepCore, h1, h]
+    · simp [stepCore, h1, pop, h]
+    · omega
+  | restart => exact h
+  | load => exact h
+  | restartMax n => exact h
+  | fail p d =>
+    have : d = 0 := by simpa [Op.armsDelete] using ho
+    simp [stepCore, this]
+
+theorem failDel_step {cfg : Cfg} {s : St} (h : s.failDel = 0) {op : Op} (ho : op.armsDelete = false) :
+    (step key cfg s op).1.failDel = 0 := by
+  rw [(step_core key cfg s op).2]
+  split
+  · rfl
+  · exact failDel_stepCore key h ho
+
+/-! ## invariant J (every key function, every history without failing Deletes): the datastore is a
+key-sorted, correctly keyed sub-multiset of memory -/
 
 structure J (cfg : Cfg) (s : St) : Prop where
   keyed : Keyed key s.disk
   sorted : s.disk.Sorted
   sub : ∃ l, l.Sublist s.mem ∧ (s.disk.map (·.2)).Perm l
-  bound : 0 < cfg.max → s.mem.length ≤ cfg.max
+  nofd : s.failDel = 0
 
 theorem J_init (cfg : Cfg) : J key cfg {} :=
-  ⟨fun _ h => by simp at h, by simp [Disk.Sorted], ⟨[], by simp, by simp⟩, fun _ => by simp⟩
+  ⟨fun _ h => by simp at h, by simp [Disk.Sorted], ⟨[], by simp, by simp⟩, rfl⟩
 
-theorem J_reload {cfg : Cfg} {s : St} (h : J key cfg s) : J key cfg (reload s) := by
-  obtain ⟨l, hl, hp⟩ := h.sub
-  refine ⟨h.keyed, h.sorted, ⟨_, Sublist.refl _, Perm.refl _⟩, fun hm => ?_⟩
-  have := h.bound hm
-  have h1 := hp.length_eq
-  have h2 := hl.length_le
-  simp only [reload, length_map] at h1 ⊢
-  omega
+theorem J_reload {cfg : Cfg} {s : St} (h : J key cfg s) : J key cfg (reload s) :=
+  ⟨h.keyed, h.sorted, ⟨_, Sublist.refl _, Perm.refl _⟩, rfl⟩
 
 theorem J_trans {cfg : Cfg} {s s₁ : St} {a d : List Batch} (h : J key cfg s) (t : Trans key cfg s s₁ a d) :
-    J key cfg s₁ := by
+    Keyed key s₁.disk ∧ s₁.disk.Sorted ∧ ∃ l, l.Sublist s₁.mem ∧ (s₁.disk.map (·.2)).Perm l := by
   obtain ⟨l, hl, hp⟩ := h.sub
   cases t with
-  | none => exact h
+  | none => exact ⟨h.keyed, h.sorted, l, hl, hp⟩
+  | tick s' hm hd => exact ⟨hd ▸ h.keyed, hd ▸ h.sorted, l, hm ▸ hl, hd ▸ hp⟩
   | accept b hf =>
-    refine ⟨keyed_put h.keyed b, Disk.put_sorted h.sorted, ?_, fun hm => ?_⟩
-    · refine ⟨l.filter (fun x => key x ≠ key b) ++ [b], ?_, ?_⟩
-      · exact Sublist.append ((filter_sublist).trans hl) (Sublist.refl _)
-      · refine (map_put_perm h.keyed b).trans ?_
-        refine (Perm.cons b (hp.filter _)).trans ?_
-        exact (perm_append_comm (l₁ := [b])).trans (Perm.refl _) |>.trans (by simp)
-    · have := h.bound hm
-      simp only [full, hm, decide_true, Bool.true_and, decide_eq_false_iff_not, Nat.not_le] at hf
-      simp only [accept, length_append, length_singleton]
-      omega
+    refine ⟨keyed_put h.keyed b, Disk.put_sorted h.sorted, ?_⟩
+    refine ⟨l.filter (fun x => key x ≠ key b) ++ [b], ?_, ?_⟩
+    · exact Sublist.append ((filter_sublist).trans hl) (Sublist.refl _)
+    · refine (map_put_perm h.keyed b).trans ?_
+      refine (Perm.cons b (hp.filter _)).trans ?_
+      exact (perm_append_comm (l₁ := [b])).trans (Perm.refl _) |>.trans (by simp)
   | pop b r hm =>
-    refine ⟨keyed_del h.keyed _, Disk.del_sorted h.sorted, ?_, fun hmax => ?_⟩
-    · refine ⟨l.filter (fun x => key x ≠ key b), ?_, ?_⟩
-      · have h1 : (l.filter (fun x => key x ≠ key b)).Sublist ((b :: r).filter (fun x => key x ≠ key b)) :=
-          (hm ▸ hl).filter _
-        have h2 : (b :: r).filter (fun x => key x ≠ key b) = r.filter (fun x => key x ≠ key b) := by simp
-        exact (h2 ▸ h1).trans filter_sublist
-      · simp only [pop]
-        rw [map_del h.keyed]
-        exact hp.filter _
-    · have := h.bound hmax
-      simp only [hm, length_cons] at this
-      simp only [pop]
-      omega
+    refine ⟨keyed_del h.keyed _, Disk.del_sorted h.sorted, ?_⟩
+    refine ⟨l.filter (fun x => key x ≠ key b), ?_, ?_⟩
+    · have h1 : (l.filter (fun x => key x ≠ key b)).Sublist ((b :: r).filter (fun x => key x ≠ key b)) :=
+        (hm ▸ hl).filter _
+      have h2 : (b :: r).filter (fun x => key x ≠ key b) = r.filter (fun x => key x ≠ key b) := by simp
+      exact (h2 ▸ h1).trans filter_sublist
+    · simp only [pop]
+      rw [map_del h.keyed]
+      exact hp.filter _
+  | popKeep b r hm hd => have := h.nofd; omega
 
-theorem J_step {cfg : Cfg} {s : St} (h : J key cfg s) (op : Op) : J key cfg (step key cfg s op).1 := by
-  obtain ⟨s₁, t, hs | hs, _⟩ := step_cases key cfg s op
-  · exact hs ▸ J_trans key h t
-  · exact hs ▸ J_reload key (J_trans key h t)
+theorem J_core {cfg : Cfg} {s : St} (h : J key cfg s) (op : Op) (ho : op.armsDelete = false) :
+    J key cfg (stepCore key cfg s op) := by
+  obtain ⟨h1, h2, h3⟩ := J_trans key h (step_core key cfg s op).1
+  exact ⟨h1, h2, h3, failDel_stepCore key h.nofd ho⟩
 
-theorem J_run (cfg : Cfg) (ops : List Op) : J key cfg (run key cfg ops).st :=
-  run_induction key cfg (fun r => J key cfg r.st) (fun _ op h => J_step key h op) {} (J_init key cfg) ops
+theorem J_step {cfg : Cfg} {s : St} (h : J key cfg s) (op : Op) (ho : op.armsDelete = false) :
+    J key cfg (step key cfg s op).1 := by
+  rw [(step_core key cfg s op).2]
+  split
+  · exact J_reload key (J_core key h op ho)
+  · exact J_core key h op ho
 
-/-! ## invariant M (every key function, every history): nothing is handed out or pending more often
-than it was accepted -/
+theorem J_run (cfg : Cfg) (ops : List Op) (ho : ∀ op ∈ ops, op.armsDelete = false) : J key cfg (run key cfg ops).st :=
+  run_induction_ops key cfg (fun r => J key cfg r.st) (fun op => op.armsDelete = false)
+    (fun _ op h hr => J_step key h op hr) {} (J_init key cfg) ops ho
+
+/-! ## the bound (histories in which the bound is not changed by a restart) -/
+
+structure B (cfg : Cfg) (s : St) : Prop where
+  same : s.maxOverride = none
+  bound : 0 < cfg.max → s.mem.length ≤ cfg.max
+
+theorem B_trans {cfg : Cfg} {s s₁ : St} {a d : List Batch} (h : B cfg s) (t : Trans key cfg s s₁ a d)
+    (hs : s₁.maxOverride = none) : B cfg s₁ := by
+  refine ⟨hs, fun hm => ?_⟩
+  have hb := h.bound hm
+  cases t with
+  | none => exact hb
+  | tick s' hmem _ => rw [hmem]; exact hb
+  | accept b hf =>
+    simp only [full, effMax, h.same, Option.getD_none, hm, decide_true, Bool.true_and, decide_eq_false_iff_not, Nat.not_le] at hf
+    simp only [accept, length_append, length_singleton]
+    omega
+  | pop b r hmem => rw [hmem] at hb; simp only [pop]; simp only [length_cons] at hb; omega
+  | popKeep b r hmem _ => rw [hmem] at hb; simp only [popKeep]; simp only [length_cons] at hb; omega
+
+theorem override_stepCore {cfg : Cfg} {s : St} {op : Op} (ho : op.changesBound = false) :
+    (stepCore key cfg s op).maxOverride = s.maxOverride := by
+  cases op with
+  | submit id b =>
+    rcases submitF_cases key cfg s id b with ⟨o, h1, _⟩ | ⟨h1, _⟩ | ⟨h1, _⟩ <;> simp [stepCore, h1, putFailed, accept]
+  | crashSubmit aw id b =>
+    cases aw
+    · rfl
+    · rcases submitF_cases key cfg s id b with ⟨o, h1, _⟩ | ⟨h1, _⟩ | ⟨h1, _⟩ <;> simp [stepCore, h1, putFailed, accept]
+  | add b =>
+    rcases addBatchF_cases key cfg s b with ⟨h1, _⟩ | ⟨h1, _⟩ | ⟨h1, _⟩ <;> simp [stepCore, h1, putFailed, accept]
+  | next id =>
+    rcases getNextF_cases key cfg s id with ⟨o, h1, _⟩ | ⟨b, r, h1, _⟩ | ⟨b, r, h1, _⟩ <;> simp [stepCore, h1, pop, popKeep]
+  | crashNext aw id =>
+    cases aw
+    · rfl
+    · rcases getNextF_cases key cfg s id with ⟨o, h1, _⟩ | ⟨b, r, h1, _⟩ | ⟨b, r, h1, _⟩ <;> simp [stepCore, h1, pop, popKeep]
+  | qnext =>
+    rcases nextBatchF_cases key s with ⟨h1, _⟩ | ⟨b, r, h1, _⟩ | ⟨b, r, h1, _⟩ <;> simp [stepCore, h1, pop, popKeep]
+  | restart => rfl
+  | load => rfl
+  | restartMax n => simp [Op.changesBound] at ho
+  | fail p d => rfl
+
+theorem B_step {cfg : Cfg} {s : St} (hj : J key cfg s) (h : B cfg s) (op : Op) (ho : op.armsDelete = false)
+    (hc : op.changesBound = false) : B cfg (step key cfg s op).1 := by
+  have hb : B cfg (stepCore key cfg s op) :=
+    B_trans key h (step_core key cfg s op).1 (by rw [override_stepCore key hc]; exact h.same)
+  rw [(step_core key cfg s op).2]
+  split
+  · refine ⟨hb.same, fun hm => ?_⟩
+    obtain ⟨l, hl, hp⟩ := (J_core key hj op ho).sub
+    have h1 := hp.length_eq
+    have h2 := hl.length_le
+    have h3 := hb.bound hm
+    simp only [reload, length_map] at h1 ⊢
+    omega
+  · exact hb
+
+/-! ## invariant M (every key function, every history without failing Deletes): nothing is removed or
+pending more often than it was accepted -/
 
 def M (r : Run) : Prop := ∀ x, (r.rem ++ r.st.mem).count x ≤ r.acc.count x
 
@@ -396,6 +619,7 @@ theorem M_trans {cfg : Cfg} {s s₁ : St} {a d acc dlv : List Batch} (t : Trans 
   have hx := h x
   cases t with
   | none => simpa using hx
+  | tick s' hm _ => rw [hm]; simpa using hx
   | accept b hf =>
     simp only [accept, count_append, append_nil] at hx ⊢
     omega
@@ -405,21 +629,30 @@ theorem M_trans {cfg : Cfg} {s s₁ : St} {a d acc dlv : List Batch} (t : Trans 
     have : count x (b :: rest) = count x [b] + count x rest := by
       rw [← count_append]; rfl
     omega
+  | popKeep b rest hm _ =>
+    simp only [hm, count_append] at hx
+    simp only [popKeep, count_append, append_nil]
+    have : count x (b :: rest) = count x [b] + count x rest := by
+      rw [← count_append]; rfl
+    omega
 
-theorem M_step {cfg : Cfg} {r : Run} (hj : J key cfg r.st) (h : M r) (op : Op) : M (Run.step key cfg r op) := by
-  obtain ⟨s₁, t, hs, _⟩ := step_cases key cfg r.st op
+theorem M_step {cfg : Cfg} {r : Run} (hj : J key cfg r.st) (h : M r) (op : Op) (ho : op.armsDelete = false) :
+    M (Run.step key cfg r op) := by
+  obtain ⟨t, hs⟩ := step_core key cfg r.st op
   have h1 := M_trans key t h
   -- a reload can only lose
-  have hj₁ : J key cfg s₁ := J_trans key hj t
+  have hj₁ : J key cfg (stepCore key cfg r.st op) := J_core key hj op ho
   intro x
-  rcases hs with hs | hs
-  · simpa [Run.step, hs] using h1 x
-  · obtain ⟨l, hl, hp⟩ := hj₁.sub
-    have h2 : (s₁.disk.map (·.2)).count x ≤ s₁.mem.count x := by
+  by_cases hp : op.reloads = true
+  · rw [if_pos hp] at hs
+    obtain ⟨l, hl, hp⟩ := hj₁.sub
+    have h2 : ((stepCore key cfg r.st op).disk.map (·.2)).count x ≤ (stepCore key cfg r.st op).mem.count x := by
       rw [hp.count_eq]; exact hl.count_le x
     have h3 := h1 x
     simp only [Run.step, hs, reload, count_append] at h3 ⊢
     omega
+  · rw [if_neg hp] at hs
+    simpa [Run.step, hs] using h1 x
 
 /-! ## invariant K (no two equal keys pending at the same time): the datastore holds exactly the
 pending batches, and removed ++ pending is a permutation of accepted -/
@@ -429,15 +662,18 @@ structure K (r : Run) : Prop where
   multiset : (r.rem ++ r.st.mem).Perm r.acc
   disk : (r.st.disk.map (·.2)).Perm r.st.mem
   nodup : (r.st.mem.map key).Nodup
+  nofd : r.st.failDel = 0
 
-theorem K_init : K key {} := ⟨fun _ h => by simp at h, by simp, by simp, by simp⟩
+theorem K_init : K key {} := ⟨fun _ h => by simp at h, by simp, by simp, by simp, rfl⟩
 
 theorem K_trans {cfg : Cfg} {s s₁ : St} {a d acc rem : List Batch} (t : Trans key cfg s s₁ a d)
     (hkd : Keyed key s.disk) (hms : (rem ++ s.mem).Perm acc) (hdisk : (s.disk.map (·.2)).Perm s.mem)
-    (hmem : (s.mem.map key).Nodup) (hn : (s₁.mem.map key).Nodup) :
+    (hmem : (s.mem.map key).Nodup) (hfd : s.failDel = 0) (hn : (s₁.mem.map key).Nodup) :
     Keyed key s₁.disk ∧ (rem ++ d ++ s₁.mem).Perm (acc ++ a) ∧ (s₁.disk.map (·.2)).Perm s₁.mem := by
   cases t with
   | none => exact ⟨hkd, by simpa using hms, hdisk⟩
+  | tick s' hm hd => exact ⟨hd ▸ hkd, by rw [hm]; simpa using hms, by rw [hm, hd]; exact hdisk⟩
+  | popKeep b rest hm hd => omega
   | accept b hf =>
     -- the new key is not among the pending ones
     have hnk : ∀ x ∈ s.mem, key x ≠ key b := by
@@ -475,72 +711,91 @@ theorem K_trans {cfg : Cfg} {s s₁ : St} {a d acc rem : List Batch} (t : Trans 
       rw [h4] at h3
       exact h3
 
-theorem K_step {cfg : Cfg} {r : Run} (h : K key r) (op : Op)
+theorem K_step {cfg : Cfg} {r : Run} (h : K key r) (op : Op) (ho : op.armsDelete = false)
     (hn : ((stepCore key cfg r.st op).mem.map key).Nodup) : K key (Run.step key cfg r op) := by
   obtain ⟨t, hs⟩ := step_core key cfg r.st op
-  have h1 := K_trans key t h.keyed h.multiset h.disk h.nodup hn
-  by_cases hp : op.plain = true
+  have h1 := K_trans key t h.keyed h.multiset h.disk h.nodup h.nofd hn
+  have hfd : (Run.step key cfg r op).st.failDel = 0 := failDel_step key h.nofd ho
+  by_cases hp : op.reloads = true
   · rw [if_pos hp] at hs
-    exact ⟨by simpa [Run.step, hs] using h1.1, by simpa [Run.step, hs] using h1.2.1,
-      by simpa [Run.step, hs] using h1.2.2, by simpa [Run.step, hs] using hn⟩
-  · rw [if_neg hp] at hs
-    refine ⟨by simpa [Run.step, hs, reload] using h1.1, ?_, by simp [Run.step, hs, reload], ?_⟩
+    refine ⟨by simpa [Run.step, hs, reload] using h1.1, ?_, by simp [Run.step, hs, reload], ?_, hfd⟩
     · have : (r.rem ++ removedBy op (step key cfg r.st op).2 ++ (stepCore key cfg r.st op).disk.map (·.2)).Perm
           (r.rem ++ removedBy op (step key cfg r.st op).2 ++ (stepCore key cfg r.st op).mem) := Perm.append_left _ h1.2.2
       simpa [Run.step, hs, reload] using this.trans h1.2.1
     · have : (((stepCore key cfg r.st op).disk.map (·.2)).map key).Nodup := ((h1.2.2.map key).nodup_iff).2 hn
       simpa [Run.step, hs, reload] using this
+  · rw [if_neg hp] at hs
+    exact ⟨by simpa [Run.step, hs] using h1.1, by simpa [Run.step, hs] using h1.2.1,
+      by simpa [Run.step, hs] using h1.2.2, by simpa [Run.step, hs] using hn, hfd⟩
 
-/-- `Q` for K: in the state the operation reaches no two pending batches have the same key -/
-theorem K_run (cfg : Cfg) (ops : List Op)
+/-- `Q` for K: no `Delete` fault is armed, and in the state the operation reaches no two pending batches have the same key -/
+theorem K_run (cfg : Cfg) (ops : List Op) (ho : ∀ op ∈ ops, op.armsDelete = false)
     (hn : ∀ pre op post, ops = pre ++ op :: post →
       ((stepCore key cfg (run key cfg pre).st op).mem.map key).Nodup) : K key (run key cfg ops) :=
-  run_induction_moments key cfg (K key) (fun _ s => (s.mem.map key).Nodup)
-    (fun _ op h hq => K_step key h op hq) {} (K_init key) ops hn
+  run_induction_moments key cfg (K key) (fun op s => op.armsDelete = false ∧ (s.mem.map key).Nodup)
+    (fun _ op h hq => K_step key h op hq.1 hq.2) {} (K_init key) ops
+    (fun pre op post he => ⟨ho op (by simp [he]), hn pre op post he⟩)
 
-/-! ## without restart: the memory list is the abstract FIFO -/
+/-! ## without restart and with a healthy datastore: the memory list is the abstract FIFO -/
 
-theorem step_refines (cfg : Cfg) (s : St) (op : Op) (hp : op.plain = true) :
-    (step key cfg s op).1.mem = (astep cfg s.mem op).1 ∧ (step key cfg s op).2 = (astep cfg s.mem op).2 := by
-  have hfull : afull cfg s.mem = full cfg s := rfl
+/-- the configured bound is in force and no fault is armed -/
+structure Healthy (s : St) : Prop where
+  same : s.maxOverride = none
+  nofp : s.failPut = 0
+  nofd : s.failDel = 0
+
+theorem step_refines (cfg : Cfg) (s : St) (op : Op) (hp : op.plain = true) (hh : Healthy s) :
+    (step key cfg s op).1.mem = (astep cfg s.mem op).1 ∧ (step key cfg s op).2 = (astep cfg s.mem op).2 ∧
+    Healthy (step key cfg s op).1 := by
+  have hfull : afull cfg s.mem = full cfg s := by simp [afull, full, effMax, hh.same]
   cases op with
   | submit id b =>
-    simp only [step, submit, astep, addBatch, hfull]
+    simp only [step, submitF_eq key cfg s id b hh.nofp, submit, astep, addBatch, hfull]
     split
-    · simp
+    · exact ⟨rfl, rfl, hh⟩
     · split
-      · simp
-      · split <;> simp [accept]
+      · exact ⟨rfl, rfl, hh⟩
+      · split
+        · exact ⟨rfl, rfl, hh⟩
+        · exact ⟨by simp [accept], rfl, ⟨hh.same, hh.nofp, hh.nofd⟩⟩
   | add b =>
-    simp only [step, astep, addBatch, hfull]
-    split <;> simp [accept]
-  | next id =>
-    simp only [step, getNext, astep, nextBatch]
+    simp only [step, addBatchF_eq key cfg s b hh.nofp, astep, addBatch, hfull]
     split
-    · simp
-    · cases h : s.mem <;> simp [pop, h]
+    · exact ⟨rfl, rfl, hh⟩
+    · exact ⟨by simp [accept], rfl, ⟨hh.same, hh.nofp, hh.nofd⟩⟩
+  | next id =>
+    simp only [step, getNextF_eq key cfg s id hh.nofd, getNext, astep, nextBatch]
+    split
+    · exact ⟨rfl, rfl, hh⟩
+    · cases h : s.mem with
+      | nil => exact ⟨by simp [h], by simp, hh⟩
+      | cons b r => exact ⟨by simp [pop], by simp, ⟨hh.same, hh.nofp, hh.nofd⟩⟩
   | qnext =>
-    simp only [step, astep, nextBatch]
-    cases h : s.mem <;> simp [pop, h]
+    simp only [step, nextBatchF_eq key s hh.nofd, astep, nextBatch]
+    cases h : s.mem with
+    | nil => exact ⟨by simp [h], by simp, hh⟩
+    | cons b r => exact ⟨by simp [pop], by simp, ⟨hh.same, hh.nofp, hh.nofd⟩⟩
   | restart => simp [Op.plain] at hp
   | load => simp [Op.plain] at hp
   | crashSubmit _ _ _ => simp [Op.plain] at hp
   | crashNext _ _ => simp [Op.plain] at hp
+  | restartMax _ => simp [Op.plain] at hp
+  | fail _ _ => simp [Op.plain] at hp
 
-theorem run_refines (cfg : Cfg) (ops : List Op) (hp : ∀ op ∈ ops, op.plain = true) (r : Run) :
+theorem run_refines (cfg : Cfg) (ops : List Op) (hp : ∀ op ∈ ops, op.plain = true) (r : Run) (hh : Healthy r.st) :
     (runFrom key cfg r ops).st.mem = (arun cfg r.st.mem ops).1 ∧
     (runFrom key cfg r ops).outs = r.outs ++ (arun cfg r.st.mem ops).2 := by
   induction ops generalizing r with
   | nil => simp [runFrom, arun]
   | cons op ops ih =>
-    have h1 := step_refines key cfg r.st op (hp op (by simp))
-    have h2 := ih (fun o ho => hp o (by simp [ho])) (Run.step key cfg r op)
+    have h1 := step_refines key cfg r.st op (hp op (by simp)) hh
+    have h2 := ih (fun o ho => hp o (by simp [ho])) (Run.step key cfg r op) h1.2.2
     rw [runFrom_cons]
     simp only [arun]
     have hst : (Run.step key cfg r op).st = (step key cfg r.st op).1 := rfl
     have hout : (Run.step key cfg r op).outs = r.outs ++ [(step key cfg r.st op).2] := rfl
     rw [hst, h1.1] at h2
-    rw [hout, h1.2] at h2
+    rw [hout, h1.2.1] at h2
     exact ⟨h2.1, by rw [h2.2]; simp⟩
 
 /-- a primitive transition keeps "removed ++ pending = accepted" as lists -/
@@ -548,11 +803,14 @@ theorem fifo_trans {cfg : Cfg} {s s₁ : St} {a d acc rem : List Batch} (t : Tra
     (h : rem ++ s.mem = acc) : rem ++ d ++ s₁.mem = acc ++ a := by
   cases t with
   | none => simpa using h
+  | tick s' hm _ => rw [hm]; simpa using h
   | accept b hf => simp [accept, ← h]
   | pop b rest hm => rw [hm] at h; simp [pop, ← h]
+  | popKeep b rest hm _ => rw [hm] at h; simp [popKeep, ← h]
 
-/-- without restart: removed ++ pending = accepted, as lists -/
-theorem fifo_plain (cfg : Cfg) (ops : List Op) (hp : ∀ op ∈ ops, op.plain = true) (r : Run)
+/-- within one process lifetime (calls and armed datastore faults, whatever fails): removed ++ pending =
+accepted, as lists -/
+theorem fifo_lifetime (cfg : Cfg) (ops : List Op) (hp : ∀ op ∈ ops, op.lifetime = true) (r : Run)
     (h : r.rem ++ r.st.mem = r.acc) :
     (runFrom key cfg r ops).rem ++ (runFrom key cfg r ops).st.mem = (runFrom key cfg r ops).acc := by
   induction ops generalizing r with
@@ -560,12 +818,24 @@ theorem fifo_plain (cfg : Cfg) (ops : List Op) (hp : ∀ op ∈ ops, op.plain = 
   | cons op ops ih =>
     rw [runFrom_cons]
     refine ih (fun o ho => hp o (by simp [ho])) _ ?_
-    obtain ⟨s₁, t, _, hpl⟩ := step_cases key cfg r.st op
-    have hs := hpl (hp op (by simp))
+    obtain ⟨t, hs⟩ := step_core key cfg r.st op
+    rw [if_neg (by simp [lifetime_not_reloads (hp op (by simp))])] at hs
     show r.rem ++ removedBy op (step key cfg r.st op).2 ++ (step key cfg r.st op).1.mem =
       r.acc ++ acceptedBy op (step key cfg r.st op).2
     rw [hs]
     exact fifo_trans key t h
+
+theorem plain_lifetime {op : Op} (h : op.plain = true) : op.lifetime = true := by
+  cases op <;> first | rfl | simp [Op.plain] at h
+
+theorem lifetime_not_crash {op : Op} (h : op.lifetime = true) : op.crashAfterDelete = false := by
+  cases op <;> first | rfl | simp [Op.lifetime] at h
+
+/-- without restart: removed ++ pending = accepted, as lists -/
+theorem fifo_plain (cfg : Cfg) (ops : List Op) (hp : ∀ op ∈ ops, op.plain = true) (r : Run)
+    (h : r.rem ++ r.st.mem = r.acc) :
+    (runFrom key cfg r ops).rem ++ (runFrom key cfg r ops).st.mem = (runFrom key cfg r ops).acc :=
+  fifo_lifetime key cfg ops (fun op ho => plain_lifetime (hp op ho)) r h
 
 /-! ## pending keys ascending at every restart: the datastore order is the arrival order there -/
 
@@ -588,34 +858,35 @@ theorem sorted_keys {d : Disk} (hk : Keyed key d) (hs : d.Sorted) : ((d.map (·.
   rw [this, pairwise_map]
   exact hs
 
-theorem A_step {cfg : Cfg} {r : Run} (hj : J key cfg r.st) (h : A key r) (op : Op)
+theorem A_step {cfg : Cfg} {r : Run} (hj : J key cfg r.st) (h : A key r) (op : Op) (ho : op.armsDelete = false)
     (hn : ((stepCore key cfg r.st op).mem.map key).Nodup)
-    (ha : op.plain = false → ((stepCore key cfg r.st op).mem.map key).Pairwise (· < ·)) :
+    (ha : op.reloads = true → ((stepCore key cfg r.st op).mem.map key).Pairwise (· < ·)) :
     A key (Run.step key cfg r op) := by
-  have hk := K_step key h.toK op hn
+  have hk := K_step key h.toK op ho hn
   refine ⟨hk, ?_⟩
   obtain ⟨t, hs⟩ := step_core key cfg r.st op
   have hf := fifo_trans key t h.fifo
-  have h1 := K_trans key t h.keyed h.multiset h.disk h.nodup hn
-  by_cases hp : op.plain = true
+  have h1 := K_trans key t h.keyed h.multiset h.disk h.nodup h.nofd hn
+  by_cases hp : op.reloads = true
   · rw [if_pos hp] at hs
-    simpa [Run.step, hs] using hf
-  · rw [if_neg hp] at hs
-    have hj₁ : J key cfg (stepCore key cfg r.st op) := J_trans key hj t
+    have hj₁ : J key cfg (stepCore key cfg r.st op) := J_core key hj op ho
     have heq : (stepCore key cfg r.st op).disk.map (·.2) = (stepCore key cfg r.st op).mem :=
-      eq_of_perm_ascending key h1.2.2 (sorted_keys key hj₁.keyed hj₁.sorted) (ha (by simpa using hp))
+      eq_of_perm_ascending key h1.2.2 (sorted_keys key hj₁.keyed hj₁.sorted) (ha hp)
     simpa [Run.step, hs, reload, heq] using hf
+  · rw [if_neg hp] at hs
+    simpa [Run.step, hs] using hf
 
-theorem A_run (cfg : Cfg) (ops : List Op)
+theorem A_run (cfg : Cfg) (ops : List Op) (ho : ∀ op ∈ ops, op.armsDelete = false)
     (hn : ∀ pre op post, ops = pre ++ op :: post →
       ((stepCore key cfg (run key cfg pre).st op).mem.map key).Nodup)
-    (ha : ∀ pre op post, ops = pre ++ op :: post → op.plain = false →
+    (ha : ∀ pre op post, ops = pre ++ op :: post → op.reloads = true →
       ((stepCore key cfg (run key cfg pre).st op).mem.map key).Pairwise (· < ·)) :
     A key (run key cfg ops) := by
   have := run_induction_moments key cfg (fun r => J key cfg r.st ∧ A key r)
-    (fun op s => (s.mem.map key).Nodup ∧ (op.plain = false → (s.mem.map key).Pairwise (· < ·)))
-    (fun r op h hq => ⟨J_step key h.1 op, A_step key h.1 h.2 op hq.1 hq.2⟩) {}
-    ⟨J_init key cfg, ⟨K_init key, rfl⟩⟩ ops (fun pre op post he => ⟨hn pre op post he, ha pre op post he⟩)
+    (fun op s => op.armsDelete = false ∧ (s.mem.map key).Nodup ∧ (op.reloads = true → (s.mem.map key).Pairwise (· < ·)))
+    (fun r op h hq => ⟨J_step key h.1 op hq.1, A_step key h.1 h.2 op hq.1 hq.2.1 hq.2.2⟩) {}
+    ⟨J_init key cfg, ⟨K_init key, rfl⟩⟩ ops
+    (fun pre op post he => ⟨ho op (by simp [he]), hn pre op post he, ha pre op post he⟩)
   exact this.2
 
 /-! ## sharpness: the hypotheses of the partial theorems are necessary -/
@@ -625,12 +896,17 @@ theorem ms_trans {cfg : Cfg} {s s₁ : St} {a d acc rem : List Batch} (t : Trans
     (hms : (rem ++ s.mem).Perm acc) : (rem ++ d ++ s₁.mem).Perm (acc ++ a) := by
   cases t with
   | none => simpa using hms
+  | tick s' hm _ => rw [hm]; simpa using hms
   | accept b hf =>
     simp only [accept, append_nil]
     rw [← append_assoc]
     exact hms.append_right [b]
   | pop b rest hm =>
     simp only [pop, append_nil]
+    rw [hm] at hms
+    simpa using hms
+  | popKeep b rest hm _ =>
+    simp only [popKeep, append_nil]
     rw [hm] at hms
     simpa using hms
 
@@ -641,19 +917,15 @@ theorem nodup_of_disk_perm {cfg : Cfg} {s : St} (hj : J key cfg s) (hd : (s.disk
 
 /-- if the accounting is right before and after an operation, no two equal keys were pending in the
 state the operation reached -/
-theorem nodup_necessary {cfg : Cfg} {r : Run} (hj : J key cfg r.st) (op : Op)
+theorem nodup_necessary {cfg : Cfg} {r : Run} (hj : J key cfg r.st) (op : Op) (ho : op.armsDelete = false)
     (h0 : (r.rem ++ r.st.mem).Perm r.acc)
     (h1 : ((Run.step key cfg r op).rem ++ (Run.step key cfg r op).st.mem).Perm (Run.step key cfg r op).acc)
     (h2 : ((Run.step key cfg r op).st.disk.map (·.2)).Perm (Run.step key cfg r op).st.mem) :
     ((stepCore key cfg r.st op).mem.map key).Nodup := by
   obtain ⟨t, hs⟩ := step_core key cfg r.st op
-  have hj₁ : J key cfg (stepCore key cfg r.st op) := J_trans key hj t
-  by_cases hp : op.plain = true
+  have hj₁ : J key cfg (stepCore key cfg r.st op) := J_core key hj op ho
+  by_cases hp : op.reloads = true
   · rw [if_pos hp] at hs
-    have : (Run.step key cfg r op).st = stepCore key cfg r.st op := hs
-    rw [this] at h2
-    exact nodup_of_disk_perm key hj₁ h2
-  · rw [if_neg hp] at hs
     have hm := ms_trans key t h0
     have hst : (Run.step key cfg r op).st = reload (stepCore key cfg r.st op) := hs
     have h1' : (r.rem ++ removedBy op (step key cfg r.st op).2 ++ (stepCore key cfg r.st op).disk.map (·.2)).Perm
@@ -664,16 +936,20 @@ theorem nodup_necessary {cfg : Cfg} {r : Run} (hj : J key cfg r.st) (op : Op)
     have h3 : ((stepCore key cfg r.st op).disk.map (·.2)).Perm (stepCore key cfg r.st op).mem :=
       (perm_append_left_iff _).1 (h1'.trans hm.symm)
     exact nodup_of_disk_perm key hj₁ h3
+  · rw [if_neg hp] at hs
+    have : (Run.step key cfg r op).st = stepCore key cfg r.st op := hs
+    rw [this] at h2
+    exact nodup_of_disk_perm key hj₁ h2
 
 /-- if "removed ++ pending = accepted" holds as sequences before and after a restarting operation,
 the pending keys were in ascending order when the process stopped -/
-theorem ascending_necessary {cfg : Cfg} {r : Run} (hj : J key cfg r.st) (op : Op) (hp : op.plain = false)
-    (h0 : r.rem ++ r.st.mem = r.acc)
+theorem ascending_necessary {cfg : Cfg} {r : Run} (hj : J key cfg r.st) (op : Op) (ho : op.armsDelete = false)
+    (hp : op.reloads = true) (h0 : r.rem ++ r.st.mem = r.acc)
     (h1 : (Run.step key cfg r op).rem ++ (Run.step key cfg r op).st.mem = (Run.step key cfg r op).acc) :
     ((stepCore key cfg r.st op).mem.map key).Pairwise (· < ·) := by
   obtain ⟨t, hs⟩ := step_core key cfg r.st op
-  have hj₁ : J key cfg (stepCore key cfg r.st op) := J_trans key hj t
-  rw [if_neg (by simp [hp])] at hs
+  have hj₁ : J key cfg (stepCore key cfg r.st op) := J_core key hj op ho
+  rw [if_pos hp] at hs
   have hf := fifo_trans key t h0
   have hst : (Run.step key cfg r op).st = reload (stepCore key cfg r.st op) := hs
   have h1' : r.rem ++ removedBy op (step key cfg r.st op).2 ++ (stepCore key cfg r.st op).disk.map (·.2) =
@@ -702,10 +978,10 @@ theorem ascending_prefix (l t : List Batch) (h : ((l ++ t).map key).Pairwise (·
   exact (pairwise_append.1 h).1
 
 /-- keys of all accepted batches pairwise distinct ⇒ K -/
-theorem K_run_of_nodup (cfg : Cfg) (ops : List Op) (hn : ((run key cfg ops).acc.map key).Nodup) :
-    K key (run key cfg ops) := by
-  refine run_induction_guarded key cfg (K key) (fun l => (l.map key).Nodup) (nodup_keys_prefix key)
-    (fun r op h hg => K_step key h op ?_) {} (K_init key) ops hn
+theorem K_run_of_nodup (cfg : Cfg) (ops : List Op) (ho : ∀ op ∈ ops, op.armsDelete = false)
+    (hn : ((run key cfg ops).acc.map key).Nodup) : K key (run key cfg ops) := by
+  refine run_induction_guarded key cfg (K key) (fun l => (l.map key).Nodup) (fun op => op.armsDelete = false)
+    (nodup_keys_prefix key) (fun r op h hr hg => K_step key h op hr ?_) {} (K_init key) ops ho hn
   obtain ⟨t, _⟩ := step_core key cfg r.st op
   have hm := (ms_trans key t h.multiset).map key
   have : ((r.rem ++ removedBy op (step key cfg r.st op).2 ++ (stepCore key cfg r.st op).mem).map key).Nodup :=
@@ -714,10 +990,11 @@ theorem K_run_of_nodup (cfg : Cfg) (ops : List Op) (hn : ((run key cfg ops).acc.
   exact (nodup_append.1 this).2.1
 
 /-- keys of the accepted batches strictly ascending in acceptance order ⇒ A -/
-theorem A_run_of_ascending (cfg : Cfg) (ops : List Op) (hn : ((run key cfg ops).acc.map key).Pairwise (· < ·)) :
-    A key (run key cfg ops) := by
+theorem A_run_of_ascending (cfg : Cfg) (ops : List Op) (ho : ∀ op ∈ ops, op.armsDelete = false)
+    (hn : ((run key cfg ops).acc.map key).Pairwise (· < ·)) : A key (run key cfg ops) := by
   have := run_induction_guarded key cfg (fun r => J key cfg r.st ∧ A key r) (fun l => (l.map key).Pairwise (· < ·))
-    (ascending_prefix key) (fun r op h hg => ?_) {} ⟨J_init key cfg, ⟨K_init key, rfl⟩⟩ ops hn
+    (fun op => op.armsDelete = false) (ascending_prefix key) (fun r op h hr hg => ?_) {}
+    ⟨J_init key cfg, ⟨K_init key, rfl⟩⟩ ops ho hn
   · exact this.2
   · obtain ⟨t, _⟩ := step_core key cfg r.st op
     have hf := fifo_trans key t h.2.fifo
@@ -725,7 +1002,7 @@ theorem A_run_of_ascending (cfg : Cfg) (ops : List Op) (hn : ((run key cfg ops).
       have hg' : ((r.acc ++ acceptedBy op (step key cfg r.st op).2).map key).Pairwise (· < ·) := hg
       rw [← hf, map_append] at hg'
       exact (pairwise_append.1 hg').2.1
-    exact ⟨J_step key h.1 op, A_step key h.1 h.2 op (nodup_of_ascending hasc) (fun _ => hasc)⟩
+    exact ⟨J_step key h.1 op hr, A_step key h.1 h.2 op hr (nodup_of_ascending hasc) (fun _ => hasc)⟩
 
 /-! ## concurrent callers: every interleaving of atomic calls is a sequential history -/
 
